@@ -9,6 +9,7 @@ import (
 	"bufio"
 	"encoding/json"
 	"fmt"
+	"io"
 	"os"
 	"strings"
 	"time"
@@ -28,6 +29,7 @@ type stdioPeerCfg struct {
 	Fault           string `json:"fault"`    // exit kill stall close
 	FaultAt         string `json:"fault_at"` // boundary name or byte:N
 	FaultFile       string `json:"fault_file"`
+	RecordFile      string `json:"record_file"` // every byte read from stdin is appended here (C09: the client's frames)
 	AnswerFile      string `json:"answer_file"` // when set: every non-initialize request is answered from this file ({"raw":..,"is_err":..})
 }
 
@@ -62,7 +64,14 @@ func stdioPeerMain(args []string) int {
 		out.WriteString(s)
 		out.Flush()
 	}
-	rd := bufio.NewReaderSize(os.Stdin, 1<<20)
+	var src io.Reader = os.Stdin
+	if cfg.RecordFile != "" {
+		if f, err := os.OpenFile(cfg.RecordFile, os.O_CREATE|os.O_WRONLY|os.O_APPEND, 0644); err == nil {
+			defer f.Close()
+			src = io.TeeReader(os.Stdin, f)
+		}
+	}
+	rd := bufio.NewReaderSize(src, 1<<20)
 	lines := 0
 	inits := 0
 	faultCalls := 0
